@@ -232,6 +232,37 @@ def check_access(spec):
             del held
             del stream
             del it
+            # the same reading resumed: the first k chunks taken with next(), the rest by a for loop over the same
+            # object (a reader that peeks at the first chunk and then loops) - still every row once, in file order
+            if rcs < n:
+                n_total = -(-n // rcs)
+                k = 1 + (spec['mat'].get('seed', 0) + rcs) % max(1, n_total - 1)
+                it2 = _lib('constructor_raised', ctx, lambda: AnnDataRowIterator(
+                    h5ad_path=str(path), row_chunk_size=rcs, layer=layer_arg,
+                    tmp_dir=None if tmp is None else str(tmp), log=None,
+                    max_gb=spec['max_gb'], keep_open=spec['keep_open']))
+                got_bounds = []
+                for _ in range(k):
+                    item = _lib('next_raised', dict(ctx, resumed=True), lambda: next(it2))
+                    got_bounds.append([int(item[1]), int(item[2])])
+                    _same('chunk_resumed', dict(ctx, r0=int(item[1]), r1=int(item[2])), item[0], x[int(item[1]):int(item[2])])
+
+                def _rest():
+                    out = []
+                    for item in it2:
+                        out.append(item)
+                        if len(out) > n + 1:
+                            break
+                    return out
+                for item in _lib('loop_raised', dict(ctx, resumed=True), _rest):
+                    got_bounds.append([int(item[1]), int(item[2])])
+                    _same('chunk_resumed', dict(ctx, r0=int(item[1]), r1=int(item[2])), item[0], x[int(item[1]):int(item[2])])
+                want_bounds = [[a, min(n, a + rcs)] for a in range(0, n, rcs)]
+                if got_bounds != want_bounds:
+                    raise Violation('rows_not_once_in_order_when_loop_follows_next',
+                                    dict(ctx, taken_with_next=k, got=got_bounds[:12], want=want_bounds[:12]))
+                info['chunks_compared'] += len(got_bounds)
+                del it2
     # ---- classes
     enc = f['enc']
     nnz = int(P.sum())
@@ -245,7 +276,7 @@ def check_access(spec):
     else:
         classes.append('h5_contiguous')
     if f.get('idx64'):
-        classes.append('index_int64')
+        classes.append('index_' + str(facts.get('idx_dtype', 'int64')))
     classes.append('multi_chunk' if multi else 'single_chunk')
     for r in rcs_all:
         if r == 1 and n > 1:
